@@ -222,6 +222,7 @@ class Ctx:
         self.level = "proof"
         self._scratch: Path | None = None
         self.known = load_known_findings(prop)
+        shutil.rmtree(VERIF / "replays" / prop, ignore_errors=True)      # replays of earlier runs are stale
         self.deadline = self.t0 + float(os.environ.get("VERIF_DEADLINE_S", "1500" if tier == "quick" else "7000"))
 
     # ---- scratch space (outside /repo and /verif) ----
